@@ -156,6 +156,18 @@ def generate(rng, run, tier):
             threads.append([gen_op(rng, shared) for _ in range(rng.randint(1, 4))])
     threads = [_flatten(t) for t in threads]
     prelude = [gen_op(rng, shared, claw_ok=False) for _ in range(rng.choice([0, 0, 1, 2, 3]))]
+    strategy = gen_strategy(rng)
+    if rng.random() < 0.12:
+        # scenario "shallow pools": one sequential cold check leaves every object pool at depth 1, then all threads
+        # run one cold check/decoration each with pre-emption concentrated on the pool / memo-table modules
+        prelude = [{'op': 'is_bearable', 'h': {'k': 'seq', 'o': 'list', 'a': [{'k': 'cls', 'n': 'int'}]},
+                    'x': {'o': 'list', 'i': [{'o': 'int', 'v': 1}]}, 'conf': None}][:rng.choice([0, 1, 1])]
+        threads = []
+        for _ in range(nthreads):
+            h, o = _gen_hint_obj(rng, None)
+            threads.append([{'op': rng.choice(['is_bearable', 'die', 'decor_call']), 'h': h, 'x': o, 'conf': None, 'pos': 'param'}])
+        strategy = {'kind': 'hot', 'p_hot': rng.choice([0.3, 0.5, 0.8]), 'p_cold': 0.0,
+                    'hot': ['utilcachepool', 'utilmapunbounded', 'utilcachecall', 'utilmaplru']}
     avoid_cw = rng.random() < 0.8
     if avoid_cw:
         # known finding C15-catch-warnings: warnings.catch_warnings is process-global. Most runs steer around it:
@@ -169,7 +181,7 @@ def generate(rng, run, tier):
     return {
         'threads': threads,
         'prelude': prelude,
-        'strategy': gen_strategy(rng),
+        'strategy': strategy,
         'sched_seed': rng.getrandbits(48),
         'draw': rng.choice([0, 1, 2, 3, 5, 2 ** 31, 2 ** 32 - 1, rng.getrandbits(32)]),
         # avoid switch for known finding C15-catch-warnings: serialise catch_warnings in most runs
